@@ -173,7 +173,9 @@ func (s *scriptedServer) serveHTTP(w0 http.ResponseWriter, r *http.Request) {
 	switch r.Method {
 	case http.MethodGet:
 		if s.getStatus != 0 {
+			w.Header().Set("Content-Type", "text/plain")
 			w.WriteHeader(s.getStatus)
+			io.WriteString(w, "the listening stream is refused\n")
 			return
 		}
 		w.Header().Set("Content-Type", "text/event-stream")
